@@ -120,6 +120,10 @@ Definition pre_opcodes_of_table (py : list pentry) : list N :=
 Fixpoint lookup_reg {A} (r : regname) (l : list (regname * A)) : option A :=
   match l with [] => None | (k, v) :: t => if regname_beq k r then Some v else lookup_reg r t end.
 
+Definition reg_code_early (r : regname) : N :=
+  match r with RA => 0 | RB => 1 | RBA => 2 | RIL => 3 | RIH => 4 | RI => 5 | RX => 6 | RY => 7 | RU => 8 | RS => 9
+             | RF => 10 | RPC => 11 | RFC => 12 | RFZ => 13 | RIMR => 14 end.
+
 Definition is20 (r : regname) : bool :=
   match r with RX | RY | RU | RS | RPC => true | _ => false end.
 
@@ -148,6 +152,13 @@ Definition rust_masks_agree (pcmask : N) (sizes : list (regname * N)) (subs : li
                     | Some m, Some m' => m =? m'
                     | _, _ => false
                     end) sizes.
+
+(* the masks observed on the register file itself (all-ones written, value read back) against the Rust masks *)
+Definition probed_masks_agree (probed rs : list (regname * N)) : bool :=
+  forallb (fun e => match lookup_reg (fst e) rs with Some m => m =? snd e | None => false end) probed.
+Definition diag_probed (probed rs : list (regname * N)) : list N :=
+  map (fun e => reg_code_early (fst e))
+      (filter (fun e => match lookup_reg (fst e) rs with Some m => negb (m =? snd e) | None => true end) probed).
 
 (* sub-register layout: arch (full reg, byte offset) vs emulator (base, shift) *)
 Definition subreg_layout_agrees (arch : list (regname * regname * N * N)) (subs : list (regname * regname * N * N)) : bool :=
